@@ -63,6 +63,10 @@ package ptracer
 //@   assigns UseVMReadv
 //@   ensures len(result) >= 0
 //@   abstracts result == tstr(c.Pid, uint64(addr))
+// the whole pathname is read: the kernel accepts pathnames of up to PATH_MAX = 4096 bytes (with the NUL), so
+// the buffer the string is read into is at least that long, and it is read from this tracee at this address
+//@   callsite vmReadStr: assert @C02 len(buff) >= 4096 && pid == c.Pid && addr == old(addr)
+//@   callsite syscall.PtracePeekData: assert @C02 len(out) >= 4096 && pid == c.Pid && addr == old(addr)
 
 //@ func ptracer.(*Context).SyscallNo props C02 C15
 //@   arith bv
